@@ -152,17 +152,18 @@ def value_is_guarded(f, v, sn, vparam, allow_list_branch=False):
     rd = f.rd
     if isinstance(v, ast.Call) and dotted(v.func) == '_hval' and v.args and isinstance(v.args[0], ast.Name):
         return True
-    if isinstance(v, ast.IfExp) and allow_list_branch:
-        # _hval(value) if not isinstance(value, list) else value
+    if isinstance(v, ast.IfExp):
         t, neg = strip_not(v.test)
         islist = isinstance(t, ast.Call) and dotted(t.func) == 'isinstance' and len(t.args) == 2 and src(t.args[1]) == 'list'
-        if islist:
+        if allow_list_branch and islist:
+            # _hval(value) if not isinstance(value, list) else value
             scalar = v.body if neg else v.orelse
             return value_is_guarded(f, scalar, sn, vparam)
-        return False
+        # `value if v is None else [v, value]`: whichever arm is taken
+        return value_is_guarded(f, v.body, sn, vparam) and value_is_guarded(f, v.orelse, sn, vparam)
     if isinstance(v, ast.Name):
         defs = rd.at(sn, v.id)
-        return bool(defs) and all(d.kind == 'assign' and d.value is not None and value_is_guarded(f, d.value, d.node, vparam) for d in defs)
+        return bool(defs) and all(d.kind == 'assign' and d.value is not None and value_is_guarded(f, d.value, d.node, vparam, allow_list_branch) for d in defs)
     if isinstance(v, (ast.List, ast.Tuple)):
         # [old, value]: every element that derives from the parameter must be guarded; elements read back from the store are already guarded
         oks = []
@@ -286,9 +287,36 @@ def check_guard(P, R):
              how.get('anchored', f'no test rejects {ch!r}'), why='the character splits the response / truncates the header',
              key_extra=repr(ch))
     # returns the converted value
+    def exact_scalar(e, at):
+        # `p is None`, `type(p) is int` / `kind is float` / `kind in (int, float, bool)`: the exact builtin, whose str() is digits, signs, dots and letters
+        cp_ = compare_parts(e)
+        if not cp_:
+            return False
+        if src(cp_[0]) == p and is_none(cp_[2]) and cp_[1] is ast.Is:
+            return True
+        l_ = cp_[0]
+        if isinstance(l_, ast.Name) and l_.id != p:
+            ds = rd.at(at, l_.id)
+            if len(ds) == 1 and ds[0].value is not None:
+                l_ = ds[0].value
+        if not (isinstance(l_, ast.Call) and dotted(l_.func) == 'type' and len(l_.args) == 1 and src(l_.args[0]) == p and all(d.kind == 'param' for d in rd.at(at, p))):
+            return False
+        if cp_[1] in (ast.Is, ast.Eq):
+            return src(cp_[2]) in ('int', 'float', 'bool')
+        if cp_[1] is ast.In and isinstance(cp_[2], (ast.Tuple, ast.List, ast.Set)):
+            return all(src(x) in ('int', 'float', 'bool') for x in cp_[2].elts)
+        return False
     for r in [n for n in walk_shallow(f.node) if isinstance(n, ast.Return)]:
         rn = g.node_of_stmt(r)[0]
         ok = isinstance(r.value, ast.Name) and all(d in convs for d in rd.at(rn, r.value.id)) and bool(rd.at(rn, r.value.id))
+        if not ok and isinstance(r.value, ast.Call) and dotted(r.value.func) == 'str' and len(r.value.args) == 1 and src(r.value.args[0]) == p \
+                and all(d.kind == 'param' for d in rd.at(rn, p)):
+            # a short cut for values whose text cannot contain a control character
+            exact = {(n, 'true') for n in g.nodes if n.kind == 'test' and all(exact_scalar(x, n) for x in bool_operands(n.ast, ast.Or))}
+            ok = bool(exact) and not g.can_reach(g.entry, rn, avoid_edges=exact)
+            R.ob('C14.c', f, r, ok, text=f'{short(r)} for None and the exact builtin numbers only', detail='' if ok else
+                 'the converted text is returned without having been scanned for control characters', key_extra='shortcut')
+            continue
         R.ob('C14.c', f, r, ok, detail='' if ok else 'the guard does not return the converted text')
 
 
